@@ -443,6 +443,25 @@ Proof.
   split; [exact (open_leaves_leaves t) | exact (open_leaves_nonempty t)].
 Qed.
 
+(* filter(f, enforce_unique): the matching nodes in document order; RuntimeError exactly when
+   enforce_unique is set and more than one node matches *)
+Theorem py_filter_spec f unique t :
+  match py_filter f unique t with
+  | Ok r => (forall p s, In (p, s) r <-> subtree t p = Some s /\ f s = true)
+            /\ StronglySorted pre_lt (map fst r) /\ (unique = true -> length r <= 1)
+  | Raise e => e = RuntimeErr /\ unique = true
+               /\ 1 < length (filter (fun pt => f (snd pt)) (nodes t))
+  end.
+Proof.
+  unfold py_filter. destruct unique; cbn [andb].
+  - destruct (Nat.ltb_spec 1 (length (filter (fun pt => f (snd pt)) (nodes t)))) as [H|H].
+    + auto.
+    + split; [intros p s; rewrite filter_In, nodes_spec; reflexivity|].
+      split; [apply sorted_filter_fst; rewrite <- positions_nodes; apply positions_sorted | intros _; exact H].
+  - split; [intros p s; rewrite filter_In, nodes_spec; reflexivity|].
+    split; [apply sorted_filter_fst; rewrite <- positions_nodes; apply positions_sorted | discriminate].
+Qed.
+
 (* non-vacuity on the shared witness *)
 Example next_path_nonvacuous :
   shape_ok (Node [60; 97; 62]%N 1 false
